@@ -210,7 +210,7 @@ def hardLines (cells : List Cell) : Lines := hardAll (cells.length + 1) cells
 
 /-! ### text.hardLines (the lines of a `Text` that is not soft-wrapped; /repo 3fa26b1, finding F616) -/
 
-/-- The loop of `hardLines(s)` over the grapheme clusters of `s` (`cur` = the clusters since `start`):
+/-- The loop of `hardLines(s)` over the grapheme clusters of `s` (`cur` = the clusters since `start`, latest first):
 ```
 for len(rest) > 0 {
     cluster, rest, _, state = uniseg.FirstGraphemeClusterInString(rest, state)
@@ -221,8 +221,8 @@ if start < len(s) { lines = append(lines, s[start:]) }
 ```
 `nl` is the cluster test (`HasTrailingLineBreakInString`, the one `HardwrapScanner` uses). -/
 def textHardLoop : List Cell → List Cell → List (List Cell)
-  | cur, [] => if cur.isEmpty then [] else [cur]
-  | cur, c :: cs => if c.nl then cur :: textHardLoop [] cs else textHardLoop (cur ++ [c]) cs
+  | cur, [] => if cur.isEmpty then [] else [cur.reverse]
+  | cur, c :: cs => if c.nl then cur.reverse :: textHardLoop [] cs else textHardLoop (c :: cur) cs
 
 def textHardLines (cells : List Cell) : List (List Cell) := textHardLoop [] cells
 
